@@ -4,7 +4,7 @@ from hyperframe import frame as hf
 import h2.events
 import h2.exceptions
 
-from engine.core import (sym_int, sym_bool, check, note, s_eq, CTX)
+from engine.core import (sym_int, sym_bool, sym_choice, check, note, s_eq, CTX)
 from engine import h2h, models
 from engine.models import sym_bytes, LenBytes
 from engine.runner import Shard
@@ -74,6 +74,13 @@ def h_recv(client, open_, pending, npings, other_pos):
         evs = h2h.deliver(me, frames)
         note('received')
         check(len(evs) == len(expect_ev), 'event-count', h2h.ev_names(evs))
+        # an application that dispatches with isinstance sees one PingReceived per PING
+        # without ACK and one PingAckReceived per PING ACK - the two kinds do not overlap
+        n_ping = sum(1 for c, _d in expect_ev if c is h2.events.PingReceived)
+        n_ack = sum(1 for c, _d in expect_ev if c is h2.events.PingAckReceived)
+        check(sum(1 for e in evs if isinstance(e, h2.events.PingReceived)) == n_ping and
+              sum(1 for e in evs if isinstance(e, h2.events.PingAckReceived)) == n_ack,
+              'ping-event-kinds-overlap', h2h.ev_names(evs))
         for e, (cls, data) in zip(evs, expect_ev):
             check(type(e) is cls, 'event-type-order', h2h.ev_names(evs))
             if data is not None:
@@ -85,6 +92,50 @@ def h_recv(client, open_, pending, npings, other_pos):
                   'ack-frame', h2h.frame_sig(f))
             if isinstance(f, hf.PingFrame):
                 check(_same(f.opaque_data, data), 'ack-payload-order', None)
+    return h
+
+
+def h_recv_then_error(client, npings):
+    """PINGs followed IN THE SAME receive_data call by a frame that is a connection error:
+    the PINGs that came first are answered all the same (their ACKs precede the GOAWAY)"""
+    def h():
+        with h2h.native():
+            me = _witness(client, True, False)
+        frames, expect_ack = [], []
+        for i in range(npings):
+            f = hf.PingFrame(0)
+            f.opaque_data = _payload(i)
+            if sym_bool('ack%d' % i):
+                f.flags.add('ACK')
+            else:
+                expect_ack.append(f.opaque_data)
+            frames.append(f)
+        bad = sym_choice('error_frame', ['window-overflow', 'continuation', 'data-on-idle'])
+        if bad == 'window-overflow':
+            g = hf.WindowUpdateFrame(0)
+            g.window_increment = 2 ** 31 - 1
+        elif bad == 'continuation':
+            g = hf.ContinuationFrame(1)
+            g.data = b'x'
+        else:
+            g = hf.DataFrame(99)
+            g.data = b'x'
+        frames.append(g)
+        out = models.Out(me)
+        try:
+            h2h.deliver(me, frames)
+        except h2.exceptions.ProtocolError:
+            note('error')
+        else:
+            note('no-error')
+            return
+        fr = out.frames()
+        acks = [f for f in fr if isinstance(f, hf.PingFrame)]
+        check(len(acks) == len(expect_ack), 'ack-count', [h2h.frame_sig(f) for f in fr])
+        for f, data in zip(acks, expect_ack):
+            check('ACK' in f.flags and _same(f.opaque_data, data), 'ack-payload-order', None)
+        check(len(fr) == len(acks) + 1 and isinstance(fr[-1], hf.GoAwayFrame),
+              'goaway-not-last', [h2h.frame_sig(f) for f in fr])
     return h
 
 
@@ -161,4 +212,7 @@ def shards(tier, seed):
                                 r, st, 'pending' if pending else 'empty', n, pos),
                             h_recv(client, open_, pending, n, pos), expect=['received']))
         out.append(Shard('ping_type/%s' % r, h_ping_type(client), expect=['refused']))
+        for n in (1, 2):
+            out.append(Shard('recv_then_error/%s/n=%d' % (r, n), h_recv_then_error(client, n),
+                             expect=['error']))
     return out
